@@ -179,8 +179,21 @@ def compare(a, b):
         FEATURES.add('text_left_str_compare')
         if 'text_left_str_compare' in QUIRKS:
             # quirk: a text on the left compares the upper-cased string forms
-            x, y = a.upper(), str(b).upper()
-            return -1 if x < y else (1 if x > y else 0)
+            x = a.upper()
+            forms = {str(b).upper()}
+            if isinstance(b, (int, float)) and not isinstance(b, bool) and \
+                    b == b and abs(b) != float('inf') and float(b).is_integer():
+                # a whole number may be held as an int or as a float by the
+                # implementation (FALSE^2 is 0 there and 0.0 here), a zero
+                # with either sign: every spelling it may have
+                forms |= {str(int(b)), repr(float(b))}
+                if b == 0:
+                    forms |= {'0', '-0', '0.0', '-0.0'}
+            outs = {-1 if x < y else (1 if x > y else 0) for y in forms}
+            if len(outs) > 1:
+                raise Undecided('string form of a whole number under the '
+                                'string-comparison mechanism')
+            return outs.pop()
     if a is None:
         a = {0: 0, 1: '', 2: False}[_rank(b)]
     if b is None:
